@@ -185,8 +185,23 @@ def default_value(ty, rng):
     raise KeyError(f'default {ty}')
 
 
+def bessel_i0(x):
+    t, s, k = 1.0, 1.0, 0
+    while k < 2000:
+        k += 1
+        t *= (x / 2.0) ** 2 / (k * k)
+        s += t
+        if t < 1e-17 * s:
+            break
+    return s
+
+
 def struct_value(name, structs, rng):
     """tuple of field values of model struct `name` (valid parameters)"""
+    if name == 'VonMises':
+        k = pos(rng) if rng.random() < 0.9 else rng.choice([1e-3, 50.0, 300.0])
+        k = min(k, 500.0)
+        return (rng.uniform(0.0, 2 * math.pi), k, bessel_i0(k))
     fields = structs[name]
     dom = DOM.get(name)
     if isinstance(dom, str):
